@@ -163,6 +163,12 @@ def main(tier: str) -> int:
             groups: Dict[str, List[Dict[str, Any]]] = {}
             for m in r["mismatch"]:
                 groups.setdefault(m["class"], []).append(m)
+            for cls, ms in list(groups.items()):
+                distinct_bindings = {str(sorted(m["binding"].items())) for m in ms}
+                if cls in ("value", "nonfinite") and len(distinct_bindings) >= r["bindings"]:
+                    # fails for EVERY binding alike: a value-level disagreement (C01's business), not a property of the binding
+                    run.add("value_mismatches_independent_of_binding")
+                    del groups[cls]
             for cls, ms in groups.items():
                 run.violation(f"corpus|{r['pid']}|{cls}", f"{len(ms)} binding(s), e.g. {ms[0]['binding']}: {ms[0]['what']}",
                               {"kind": "corpus", "pid": r["pid"]}, cases=sorted({str(sorted(m['binding'].items())) for m in ms}))
